@@ -10,6 +10,7 @@ HFiles == {"f1", "f2", "f3", "f4", "f5"}
 HPkgOf == [f \in HFiles |-> CASE f \in {"f1", "f2"} -> "p" [] f = "f3" -> "q" [] OTHER -> "r"]
 HDiag == [x \in HCheckers \X HFiles |-> <<x[2]>>]
 HNone == [x \in HCheckers \X HFiles |-> {}]
+HHasImports == [f \in HFiles |-> TRUE]
 
 VARIABLE trail
 HInit == Init /\ trail = <<>>
